@@ -7,7 +7,7 @@
    to the proxy for it.  Every statement is over all finite sequences. *)
 From Coq Require Import String Ascii.
 From Coq Require Import List ZArith Bool.
-From Verif Require Import C07.Model C07.Spec C07.Proofs C07.SessionProofs.
+From Verif Require Import C07.Model C07.Spec C07.Proofs C07.SessionProofs C07.Findings C07.Consumer.
 Import ListNotations.
 Open Scope Z_scope.
 
@@ -284,7 +284,15 @@ Print Assumptions C07_sessions_independent.
    "struct-updated-in-place"); without it independence fails for a reused
    struct (example below).  No producer of the tree hands the same struct to
    two transactions, every construction site builds one per call; the response
-   table has no such cell, there struct reuse is the value semantics. *)
+   table has no such cell, there struct reuse is the value semantics.
+   This statement is about the UNFIXED code (finding F-C07c; the side condition
+   is that finding's classifier).  With patches/C07/fix-F-C07c.patch the cell
+   builds a new action like the other eight merge cells, struct reuse is the
+   value semantics of C07_sessions_independent for every session (producers
+   repeated inside one transaction included - [session_req_ip] reads the values
+   when a fold starts and is not a model of the unfixed code for a struct that
+   occurs twice in ONE sequence), and that is what the suite sess_req checks;
+   C07_struct_reuse_unfixed_refuted below is the refutation for this variant. *)
 Theorem C07_struct_reuse_independent_outside_inplace :
   (forall st ids, fst (txn_req_ip st ids) = fold_req (resolve_req st ids)) /\
   (forall st ts,
@@ -367,3 +375,240 @@ Example C07_session_example :
      [RModRequest [(kA, v1); (kB, v2)] [] [] [] []; RModHeaders [(kB, v2)];
       RGenRequest [(kA, v3)] [kB] []]).
 Proof. vm_compute. repeat split; try reflexivity; repeat constructor. Qed.
+
+(* ================================================================== findings *)
+
+Definition kXA : list Z := [88; 45; 65].     (* "X-A" *)
+Definition kxa : list Z := [120; 45; 97].    (* "x-a" *)
+
+(* ------------------------------------------------------------------ F-C07a
+   "response modifications merge their header edits the same way": whenever
+   the combined action is a response modification, its header edits are the
+   later-wins union of the edits of ALL response modifications of the
+   sequence.  The statement does not say which of modification / retry has
+   priority, so nothing is demanded when the result is a retry. *)
+Definition C07_resp_union_full : Prop :=
+  forall l h b s, fold_resp l = PModResp h b s ->
+  forall k, lookup k h = last_edit k (map mod_edits l).
+
+(* The code violates it: ModifyResponse x Retry returns the retry and
+   Retry x ModifyResponse returns the modification, nothing merged, so a
+   modification before a retry is lost for a modification after it. *)
+Theorem C07_resp_union_refuted :
+  exists l h b s k,
+    fold_resp l = PModResp h b s /\ retry_splits_mods l = true /\
+    lookup k h <> last_edit k (map mod_edits l).
+Proof.
+  exists [PModResp [(kA, v1)] [120] 200; PRetry []; PModResp [(kB, v2)] [121] 500],
+         [(kB, v2)], [121], 500, kA.
+  vm_compute. repeat split; try reflexivity. discriminate.
+Qed.
+Print Assumptions C07_resp_union_refuted.
+
+Theorem C07_resp_union_full_refuted : ~ C07_resp_union_full.
+Proof.
+  intro H. destruct C07_resp_union_refuted as [l [h [b [s [k [E [_ N]]]]]]].
+  exact (N (H l h b s E k)).
+Qed.
+Print Assumptions C07_resp_union_full_refuted.
+
+(* ... and holds for every sequence in which no response modification comes
+   after a retry that comes after a response modification ([retry_splits_mods],
+   decidable; the classifier of the monitor's signature
+   resp-edits-dropped-at-retry:RespPrioritize).  Retries before the first
+   modification or after the last one are inside. *)
+Theorem C07_resp_union_holds_outside_F_C07a : forall l h b s,
+  retry_splits_mods l = false -> fold_resp l = PModResp h b s ->
+  (forall k, lookup k h = last_edit k (map mod_edits l)) /\
+  (Forall (fun a => is_map (resp_edits a)) l -> is_map h).
+Proof.
+  intros l h b s S E. split; [exact (resp_union_outside l h b s S E)|].
+  intro M. pose proof (fold_resp_is_map_from l PNoOp M) as P.
+  unfold fold_resp in E. rewrite E in P. apply P. constructor.
+Qed.
+Print Assumptions C07_resp_union_holds_outside_F_C07a.
+
+(* C07_resp_mods_merge with its premise "no retry at all" narrowed to the
+   finding: outside F-C07a, a sequence whose last action that is not a no-op
+   is a response modification yields a response modification carrying the
+   later-wins union of all response modifications *)
+Theorem C07_resp_mods_merge_outside_F_C07a : forall l,
+  retry_splits_mods l = false -> last_kind l KNoOp = KMod ->
+  exists h b s, fold_resp l = PModResp h b s /\
+                (forall k, lookup k h = last_edit k (map mod_edits l)) /\
+                (Forall (fun a => is_map (resp_edits a)) l -> is_map h).
+Proof.
+  intros l S K. destruct C07_resp as [_ [_ [_ [R _]]]]. specialize (R l). rewrite K in R.
+  destruct (fold_resp l) as [|h b s|h] eqn:E; try discriminate.
+  exists h, b, s. split; [reflexivity|]. exact (C07_resp_union_holds_outside_F_C07a l h b s S E).
+Qed.
+Print Assumptions C07_resp_mods_merge_outside_F_C07a.
+
+(* what the code does inside the finding: after a retry only the
+   modifications that follow it count, whatever was accumulated before *)
+Theorem C07_resp_edits_dropped_at_retry : forall pre hr run b s,
+  Forall (fun a => is_retry a = false) run -> first_mod run = Some (b, s) ->
+  exists h', fold_resp (pre ++ PRetry hr :: run) = PModResp h' b s /\
+             forall k, lookup k h' = last_edit k (map resp_edits run).
+Proof.
+  intros pre hr run b s H F.
+  destruct C07_resp as [_ [_ [_ [_ [R _]]]]]. specialize (R (pre ++ [PRetry hr]) run H).
+  rewrite <- app_assoc in R. simpl in R.
+  assert (K : exists hx, fold_resp (pre ++ [PRetry hr]) = PRetry hx).
+  { unfold fold_resp. rewrite fold_left_app. simpl.
+    destruct (fold_left prio_resp pre PNoOp); simpl; eauto. }
+  destruct K as [hx K]. rewrite K in R. exact (R b s F).
+Qed.
+Print Assumptions C07_resp_edits_dropped_at_retry.
+
+(* ------------------------------------------------------------------ F-C07b
+   HTTP header names are case-insensitive: an edit of "X-A" and an edit of
+   "x-a" are edits of the same header and conflict.  Read per HEADER, the
+   statement demands: when every action names a header at most once, so does
+   the result, and per header the later edit wins. *)
+Definition C07_headers_ci_full : Prop := forall l,
+  Forall (fun a => is_early a = false) l ->
+  Forall (fun a => ci_map (req_edits a)) l ->
+  ci_map (req_edits (fold_req l)) /\
+  forall k, lookup_ci k (req_edits (fold_req l)) = last_edit_ci k (map req_edits l).
+
+(* The code (MergeHeaders over Go maps keyed by the exact spelling) keeps both
+   spellings: both lines reach the proxy in map-iteration order and which one
+   the proxy's case-insensitive set-header applies last is not determined. *)
+Theorem C07_headers_ci_refuted :
+  exists l, Forall (fun a => is_early a = false) l /\
+            Forall (fun a => ci_map (req_edits a)) l /\
+            case_clash (all_keys (map req_edits l)) = true /\
+            lookup kXA (req_edits (fold_req l)) = Some v1 /\
+            lookup kxa (req_edits (fold_req l)) = Some v2 /\
+            ~ ci_map (req_edits (fold_req l)).
+Proof.
+  exists [RModHeaders [(kXA, v1)]; RModHeaders [(kxa, v2)]].
+  split; [repeat constructor|]. split.
+  { repeat constructor; simpl; tauto. }
+  split; [reflexivity|]. split; [reflexivity|]. split; [reflexivity|].
+  intro H. unfold ci_map in H. vm_compute in H.
+  inversion H as [|x r Hn Hd]. apply Hn. left. reflexivity.
+Qed.
+Print Assumptions C07_headers_ci_refuted.
+
+Theorem C07_headers_ci_full_refuted : ~ C07_headers_ci_full.
+Proof.
+  intro H. destruct C07_headers_ci_refuted as [l [E [M [_ [_ [_ N]]]]]].
+  exact (N (proj1 (H l E M))).
+Qed.
+Print Assumptions C07_headers_ci_full_refuted.
+
+(* ... and holds whenever no two names of the sequence differ only in case
+   ([case_clash], decidable; the classifier of the monitor's signature
+   case-variant-conflict:MergeHeaders): then the byte-exact union of
+   C07_headers_union IS the union per header. *)
+Theorem C07_headers_ci_holds_outside_F_C07b : forall l,
+  Forall (fun a => is_early a = false) l ->
+  case_clash (all_keys (map req_edits l)) = false ->
+  (Forall (fun a => is_map (req_hdrs a)) l -> ci_map (req_edits (fold_req l))) /\
+  forall k, lookup_ci k (req_edits (fold_req l)) = last_edit_ci k (map req_edits l).
+Proof.
+  intros l H C. destruct (C07_headers_union l H) as [_ [U M]].
+  destruct (ci_from_exact _ _ U C) as [A B]. split; [|exact B].
+  intro X. apply A. apply M. exact X.
+Qed.
+Print Assumptions C07_headers_ci_holds_outside_F_C07b.
+
+(* the same on the response side (same MergeHeaders), outside both findings *)
+Theorem C07_resp_ci_holds_outside_F_C07a_F_C07b : forall l h b s,
+  retry_splits_mods l = false -> fold_resp l = PModResp h b s ->
+  case_clash (all_keys (map mod_edits l)) = false ->
+  (Forall (fun a => is_map (resp_edits a)) l -> ci_map h) /\
+  forall k, lookup_ci k h = last_edit_ci k (map mod_edits l).
+Proof.
+  intros l h b s S E C.
+  destruct (C07_resp_union_holds_outside_F_C07a l h b s S E) as [U M].
+  destruct (ci_from_exact _ _ U C) as [A B]. split; [|exact B].
+  intro X. apply A. apply M. exact X.
+Qed.
+Print Assumptions C07_resp_ci_holds_outside_F_C07a_F_C07b.
+
+(* both side conditions are decidable properties of the names *)
+Theorem C07_case_clash_decides : forall ks,
+  case_clash ks = false <->
+  (forall k k', In k ks -> In k' ks -> lower_str k = lower_str k' -> k = k').
+Proof.
+  intro ks. split; [exact (case_clash_false ks)|exact (noclash_case_clash ks)].
+Qed.
+Print Assumptions C07_case_clash_decides.
+
+(* ------------------------------------------------------------------ F-C07c
+   (repaired by patches/C07/fix-F-C07c.patch)  The unfixed code under struct
+   reuse is NOT the value semantics: ModifyRequest x ModifyHeaders assigns the
+   accumulated struct's HeadersToSet, and the accumulated struct is the first
+   producer's own. *)
+Theorem C07_struct_reuse_unfixed_refuted :
+  ~ (forall st ts, session_req_ip st ts = session_req st ts).
+Proof.
+  intro H.
+  specialize (H [RModRequest [(kA, v1); (kB, v1)] [] [] [] []; RModHeaders [(kB, v2)]]
+                [[0; 1]; [0]]%nat).
+  vm_compute in H. discriminate.
+Qed.
+Print Assumptions C07_struct_reuse_unfixed_refuted.
+
+(* ------------------------------------------------------------------ side condition of C07_encoding *)
+
+Theorem C07_hdrs_wf_decidable : forall h, hdrs_wfb h = true <-> hdrs_wf h.
+Proof. intro h. split; [apply hdrs_wfb_ok|apply hdrs_wfb_complete]. Qed.
+Print Assumptions C07_hdrs_wf_decidable.
+
+(* ------------------------------------------------------------------ the proxy's reader
+   (Consumer.v: hand model of lunar.lua parse_headers, not tied by execution;
+   outside the property, which ends at the encoding handed to the proxy).
+   Full statement: under the side condition of C07_encoding the proxy reads
+   back the header map that was encoded. *)
+Definition C07_lua_reader_full : Prop :=
+  forall h, hdrs_wf h -> is_map h -> lua_parse_headers (dump h) = Some h.
+
+(* false: the reader cuts a line at EVERY ':' and keeps the second piece (a
+   URL, a time, "Bearer a:b" are truncated), and drops an empty value *)
+Theorem C07_lua_reader_full_refuted : ~ C07_lua_reader_full.
+Proof.
+  intro H.
+  specialize (H [(kA, [104; 116; 116; 112; 58; 47; 47; 104])]).   (* a: http://h *)
+  assert (W : hdrs_wf [(kA, [104; 116; 116; 112; 58; 47; 47; 104])]).
+  { apply hdrs_wfb_ok. reflexivity. }
+  assert (M : is_map [(kA, [104; 116; 116; 112; 58; 47; 47; 104])]).
+  { repeat constructor. simpl. tauto. }
+  specialize (H W M). vm_compute in H. discriminate.
+Qed.
+Print Assumptions C07_lua_reader_full_refuted.
+
+(* it reads back exactly the maps whose names and values are non-empty and
+   contain neither ':' nor newline ([hdrs_lua_okb], decidable) *)
+Theorem C07_lua_reader_holds_outside_colon_or_empty_value : forall h,
+  hdrs_lua_okb h = true -> lua_parse_headers (dump h) = Some h.
+Proof. intros h H. apply lua_reads_dump. apply hdrs_lua_okb_ok. exact H. Qed.
+Print Assumptions C07_lua_reader_holds_outside_colon_or_empty_value.
+
+(* ------------------------------------------------------------------ non-vacuity of the above *)
+
+Example C07_findings_example :
+  (* retries before the first and after the last modification are outside F-C07a *)
+  retry_splits_mods [PRetry [(kA, v3)]; PModResp [(kA, v1)] [120] 200; PNoOp;
+                     PModResp [(kB, v2)] [121] 500] = false /\
+  fold_resp [PRetry [(kA, v3)]; PModResp [(kA, v1)] [120] 200; PNoOp;
+             PModResp [(kB, v2)] [121] 500] = PModResp [(kA, v1); (kB, v2)] [120] 200 /\
+  retry_splits_mods [PModResp [(kA, v1)] [120] 200; PRetry []] = false /\
+  retry_splits_mods [PModResp [(kA, v1)] [120] 200; PNoOp; PRetry []; PRetry [];
+                     PNoOp; PModResp [(kB, v2)] [121] 500] = true /\
+  (* names in different spellings of DIFFERENT headers do not clash *)
+  case_clash (all_keys [[(kXA, v1); (kB, v1)]; [(kXA, v2)]; [(kA, v3)]]) = false /\
+  case_clash (all_keys [[(kXA, v1)]; [(kB, v1)]; [(kxa, v2)]]) = true /\
+  lookup_ci kxa (req_edits (fold_req [RModHeaders [(kXA, v1); (kB, v1)];
+                                      RModHeaders [(kXA, v2)]])) = Some v2 /\
+  (* the proxy's reader: plain values are read back, a URL is cut, an empty
+     value is dropped, a line of ':' only is a Lua error *)
+  hdrs_lua_okb [(kA, v1); (kXA, [118; 32; 119])] = true /\
+  lua_parse_headers (dump [(kA, [104; 116; 116; 112; 58; 47; 47; 104])])
+    = Some [(kA, [104; 116; 116; 112])] /\
+  lua_parse_headers (dump [(kA, []); (kB, v2)]) = Some [(kB, v2)] /\
+  lua_parse_headers (dump [([], [])]) = None.
+Proof. vm_compute. repeat split; reflexivity. Qed.
